@@ -11,7 +11,8 @@
 //	hd <s>                          HexDecode            -> s=<out>,<errtext|ok> b=… ts=… tss=… mod=<bool>
 //	hdip <s>                        HexDecodeInPlace     -> n=<n> err=<errtext|ok> buf=<buffer after>
 //	l2ip <x> / ip2l <s> / iprt <x>  LongToIPv4 / IPv4ToLong / round trip
-//	dg <algo> <in> <stdlib digest>  hashz digest helpers -> s= b= ts= tss= st= st1= stw=<stream|none> mod=
+//	dg <algo> <in> <stdlib digest>  hashz digest helpers -> s= b= ts= tss= st= st1= stw= ste= ste4= sto= sth= sts= stz=<stream|none> mod=
+//	dgz <algo> <n> <seed> <digest>  the same on a generated n-byte input (n around 4096, 32768, …) -> b= st=… mod=
 //	hm <algo> <key> <data> <mac>    hashz.Hmac           -> ss= sb= bs= bb= ts= tss= mod=
 //	b64e <enc> <in> <stdlib out>    Base64Encode         -> s= b= ts= tss= mod=
 //	b64d <enc> <in> <out> <err>     Base64Decode         -> s=<out>,<err> b= ts= tss= mod=
@@ -40,6 +41,7 @@ import (
 	"net/netip"
 	"strconv"
 	"strings"
+	"testing/iotest"
 
 	"github.com/welllog/golib/hashz"
 	"github.com/welllog/golib/strz"
@@ -213,6 +215,82 @@ func (c *chunkReader) Read(p []byte) (int, error) {
 	return k, nil
 }
 
+// streamNames are the reader shapes every …Stream helper is fed with (all must give the
+// digest of the whole input):
+//
+//	st   a third of the input per Read          st1  one byte per Read (own reader)
+//	stw  bytes.Reader (io.WriterTo path)        ste  iotest.DataErrReader: the last data
+//	sto  iotest.OneByteReader                        arrives TOGETHER with io.EOF
+//	sth  iotest.HalfReader                      ste4 DataErrReader over 4096-byte reads
+//	sts  io.NewSectionReader with a limit beyond the data
+//	stz  a reader that returns (0, nil) before every chunk (allowed by io.Reader)
+var streamNames = []string{"st", "st1", "stw", "ste", "ste4", "sto", "sth", "sts", "stz"}
+
+// zeroThenData returns (0, nil) on every other call.
+type zeroThenData struct {
+	r    io.Reader
+	flip bool
+}
+
+func (z *zeroThenData) Read(p []byte) (int, error) {
+	z.flip = !z.flip
+	if z.flip {
+		return 0, nil
+	}
+	return z.r.Read(p)
+}
+
+func streamFields(a *digestAlgo, s []byte) string {
+	parts := make([]string, 0, len(streamNames))
+	for _, name := range streamNames {
+		v := "none"
+		if a.stream != nil {
+			var r io.Reader
+			switch name {
+			case "st":
+				r = &chunkReader{b: clone(s), n: 1 + len(s)/3}
+			case "st1":
+				r = &chunkReader{b: clone(s), n: 1}
+			case "stw":
+				r = bytes.NewReader(clone(s))
+			case "ste":
+				r = iotest.DataErrReader(&chunkReader{b: clone(s), n: 1 + len(s)/3})
+			case "ste4":
+				r = iotest.DataErrReader(&chunkReader{b: clone(s), n: 4096})
+			case "sto":
+				r = iotest.OneByteReader(&chunkReader{b: clone(s), n: 1 << 20})
+			case "sth":
+				r = iotest.HalfReader(&chunkReader{b: clone(s), n: 1 << 20})
+			case "sts":
+				r = struct{ io.Reader }{io.NewSectionReader(bytes.NewReader(clone(s)), 0, int64(len(s))+1000)}
+			case "stz":
+				r = &zeroThenData{r: &chunkReader{b: clone(s), n: 1 + len(s)/2}}
+			}
+			o, err := a.stream(r)
+			if err != nil {
+				v = "err"
+			} else {
+				v = hx(o)
+			}
+		}
+		parts = append(parts, name+"="+v)
+	}
+	return strings.Join(parts, " ")
+}
+
+// bigInput is the deterministic input of a `dgz` line (the line carries only n and seed).
+func bigInput(n, seed int) []byte {
+	b := make([]byte, n)
+	x := uint64(seed)*0x9e3779b97f4a7c15 + 0x1234567
+	for i := range b {
+		x ^= x << 13
+		x ^= x >> 7
+		x ^= x << 17
+		b[i] = byte(x >> 24)
+	}
+	return b
+}
+
 // ---- implementation side
 
 func impl(c core.Case) []string {
@@ -307,21 +385,24 @@ func implOp(t []string) string {
 		o2 := a.b(bs)
 		o3 := a.ts(bs)
 		o3s := a.tss(str)
-		st, st1, stw := "none", "none", "none"
-		if a.stream != nil {
-			run := func(r io.Reader) string {
-				o, err := a.stream(r)
-				if err != nil {
-					return "err"
-				}
-				return hx(o)
-			}
-			st = run(&chunkReader{b: clone(s), n: 1 + len(s)/3}) // three or four reads
-			st1 = run(&chunkReader{b: clone(s), n: 1})           // one byte per read
-			stw = run(bytes.NewReader(bs))                       // io.WriterTo path of io.Copy: one Write
-		}
+		stf := streamFields(a, s)
 		mod := !bytes.Equal(bs, s) || str != string(s)
-		return fmt.Sprintf("s=%s b=%s ts=%s tss=%s st=%s st1=%s stw=%s mod=%v", hx(o1), hx(o2), hx([]byte(o3)), hx([]byte(o3s)), st, st1, stw, mod)
+		return fmt.Sprintf("s=%s b=%s ts=%s tss=%s %s mod=%v", hx(o1), hx(o2), hx([]byte(o3)), hx([]byte(o3s)), stf, mod)
+	case t[0] == "dgz" && len(t) == 5:
+		// large input generated from (n, seed): only the stream helpers and the []byte one-shot form
+		a := digestByName(t[1])
+		n, e1 := strconv.Atoi(t[2])
+		seed, e2 := strconv.Atoi(t[3])
+		if a == nil || e1 != nil || e2 != nil || n < 0 || n > 1<<20 || seed < 0 {
+			return "bad-op"
+		}
+		_ = arg(4)
+		s := bigInput(n, seed)
+		bs := clone(s)
+		o2 := a.b(bs)
+		stf := streamFields(a, s)
+		mod := !bytes.Equal(bs, s)
+		return fmt.Sprintf("b=%s %s mod=%v", hx(o2), stf, mod)
 	case t[0] == "hm" && len(t) == 5:
 		h := hmacAlgos[t[1]]
 		if h == nil {
@@ -495,7 +576,22 @@ func checkOp(t []string, out string) *core.Failure {
 			return f
 		}
 		if a.stream != nil {
-			return allEq("digest-stream-"+t[1], want, "st", "st1", "stw")
+			return allEq("digest-stream-"+t[1], want, streamNames...)
+		}
+	case "dgz":
+		a := digestByName(t[1])
+		n, _ := strconv.Atoi(t[2])
+		seed, _ := strconv.Atoi(t[3])
+		sum := a.sum(bigInput(n, seed))
+		if hx(sum) != t[4] {
+			return fail("harness-stale-digest", "the digest carried by the line is not the standard library's")
+		}
+		want := hx([]byte(hex.EncodeToString(sum)))
+		if f := allEq("digest-"+t[1], want, "b"); f != nil {
+			return f
+		}
+		if a.stream != nil {
+			return allEq("digest-stream-"+t[1], want, streamNames...)
 		}
 	case "hm":
 		k, _ := unhx(t[2])
@@ -542,7 +638,7 @@ func nonTrivial(c core.Case, out []string) bool {
 			if len(t[1]) >= 4 {
 				return true
 			}
-		case "dg", "hm", "b64e", "b64d":
+		case "dg", "dgz", "hm", "b64e", "b64d":
 			return true
 		}
 	}
